@@ -222,6 +222,48 @@ pub fn run(seed: u64, n_docs: u64, n_maps: u64, n_par: u64) -> BulkResult {
             }
         }
     }
+    // 3a. rayon: many small collects into never-allocated maps on a full pool: the workers' very
+    // first inserts race on the lazy allocation of the table
+    {
+        let pool = rayon::ThreadPoolBuilder::new().num_threads(8).build().unwrap();
+        let trials = 150 * n_par.max(1);
+        let mut bad = 0u64;
+        for t in 0..trials {
+            let n = 8 + (t % 17) as u32;
+            let items: Vec<(u32, u32)> = (0..n).map(|j| (j * 7 + (t as u32 % 5), j)).collect();
+            let res = catch_unwind(AssertUnwindSafe(|| {
+                pool.install(|| {
+                    let m: HashMap<u32, u32> = items.clone().into_par_iter().collect();
+                    let s: HashSet<u32> = items.iter().map(|x| x.0).collect::<Vec<_>>().into_par_iter().collect();
+                    (m, s)
+                })
+            }));
+            r.par_runs += 1;
+            match res {
+                Err(_) => {
+                    bad += 1;
+                    if bad <= 2 {
+                        r.failures.push(format!("from_par_iter of {} items on 8 threads panicked (trial {})", n, t));
+                    }
+                }
+                Ok((m, s)) => {
+                    let g = m.guard();
+                    let missing: Vec<u32> = items.iter().map(|x| x.0).filter(|k| m.get(k, &g).is_none()).collect();
+                    let sg = s.guard();
+                    let smissing = items.iter().filter(|x| !s.contains(&x.0, &sg)).count();
+                    if !missing.is_empty() || m.len() != items.len() || smissing > 0 || s.len() != items.len() {
+                        bad += 1;
+                        if bad <= 2 {
+                            r.failures.push(format!(
+                                "from_par_iter of {} distinct keys on 8 threads: keys {:?} are missing from the map (len() = {}), {} from the set (len() = {}) (trial {})",
+                                n, missing, m.len(), smissing, s.len(), t
+                            ));
+                        }
+                    }
+                }
+            }
+        }
+    }
     // 3. rayon
     for i in 0..n_par {
         let threads = [1usize, 2, 4, 8][(i % 4) as usize];
